@@ -269,6 +269,24 @@ func cmdCheck(args []string) {
 			}
 		}
 	}
+	// path dependencies: an obligation is proved under the goals of the obligations checked before it on the same path
+	// (assert semantics), whatever property those belong to. They are solved with this property: if one of them
+	// fails, what was proved after it rests on an assumption that does not hold.
+	pathDep := map[string]bool{}
+	for _, o := range obs {
+		for _, n := range o.PathDeps {
+			pathDep[n] = true
+		}
+	}
+	for _, u := range units {
+		for _, o := range u.obligs {
+			if pathDep[o.Name] && !have[o] {
+				have[o] = true
+				obs = append(obs, o)
+				depNames[o.Name] = true
+			}
+		}
+	}
 	for _, u := range units {
 		if u.fc == nil {
 			continue
@@ -526,9 +544,16 @@ func cmdCheck(args []string) {
 		}
 	}
 	kfBy := map[string][]KnownFinding{}
+	foreignKF := map[string]bool{} // obligations with a recorded finding of another property (reached here as dependencies)
 	for _, f := range kf.Findings {
 		if f.Property == *prop {
 			kfBy[f.Obligation] = append(kfBy[f.Obligation], f)
+		}
+	}
+	for _, f := range kf.Findings {
+		if f.Property != *prop && len(kfBy[f.Obligation]) == 0 {
+			kfBy[f.Obligation] = append(kfBy[f.Obligation], f)
+			foreignKF[f.Obligation] = true
 		}
 	}
 	var recs []obRec
@@ -584,6 +609,10 @@ func cmdCheck(args []string) {
 			if allKnown {
 				rec.Status = "known-finding"
 				for _, f := range kfs {
+					if foreignKF[f.Obligation] {
+						rec.Note = "dependency; recorded finding of property " + f.Property
+						continue
+					}
 					knownLines = append(knownLines, fmt.Sprintf("KNOWN-FINDING: property=%s %s [%s]", *prop, f.What, f.Obligation))
 				}
 			} else {
